@@ -58,6 +58,7 @@ Inductive bpc :=
 | BDone                                   (* before waitGroup.Done *)
 | BTick (f : fpc) (last : Z)              (* Flush on a tick *)
 | BQuit (last : Z)                        (* before shallQuit *)
+| BStop                                   (* decided to quit (guarded cleared); before/inside ticker.Stop() *)
 | BExit (f : fpc)                         (* ticker stopped; deferred Flush *)
 | BDead.
 
@@ -249,8 +250,9 @@ Definition bstep (cfg : config) (s : state) (b : nat) (alt : bool) : option stat
       end
     | BQuit last =>
       if now s - last <=? interval cfg * idleRound then goto s (BSelect false last)
-      else if inflight s =? 0 then goto (set_guarded s false) (BExit FEnter)
+      else if inflight s =? 0 then goto (set_guarded s false) BStop
       else goto s (BSelect false last)
+    | BStop => goto s (BExit FEnter)
     | BExit f =>
       match fstep cfg s f with
       | None => None
